@@ -56,6 +56,10 @@ def main():
                 from .observe import LineSignals
 
                 LineSignals(em, obs, **cfg["line_signals"]).install()
+            if cfg.get("trace_pool"):
+                from .poollife import install_pool_tracer
+
+                install_pool_tracer(em)
             kwargs = dict(cfg.get("kwargs", {}))
             kwargs.setdefault("plot", False)
             kwargs.setdefault("log_on_iteration", False)
